@@ -5,12 +5,12 @@
    Proved for ALL histories: no error state and get / rm / count answer like a dictionary, also when notifier
    registrations create and release value-less nodes in between; complete / abandoned qb_map_foreach visits every
    present key exactly once.  NOT proved here (checked on generated scripts against the implementation by the
-   monitor of vlib/maptrie.py, see reports/maptrie.md): prefix iteration, explicit iterator operations, the notifier
-   calls made, destroy. *)
+   monitor of vlib/maptrie.py, see reports/maptrie.md): prefix iteration. *)
 From Coq Require Import List ZArith.
 Require Import Verif.gen.Consts_trie Verif.MapTrieModel Verif.MapTrieSpec Verif.MapTrieProofs Verif.MapTrieProofs2
                Verif.MapTrieProofs3 Verif.MapTrieRefuted Verif.MapTrieIter Verif.MapTrieIds Verif.MapTrieIter4
-               Verif.MapTrieIter6 Verif.MapTrieOrder.
+               Verif.MapTrieIter6 Verif.MapTrieOrder Verif.MapTrieNotify Verif.MapTrieNotify2 Verif.MapTrieNotify3
+               Verif.MapTrieNotify4 Verif.MapTrieDestroy2 Verif.MapTrieDestroy3.
 Import ListNotations.
 
 (* TRIE_CHAR2INDEX as modelled equals the macro of the working tree on all 256 byte values (table regenerated
@@ -83,6 +83,56 @@ Theorem C17T_foreach_all_histories : forall fx hs, f_rm fx = true -> Forall iop_
   exists outs t', run fx trie_init (map iop_op hs) = (outs, Ok t') /\ hist_ok [] hs outs.
 Proof. exact trie_foreach_all_histories. Qed.
 Print Assumptions C17T_foreach_all_histories.
+
+(* trie_notify (every tree): the calls made for an event on the node trie_lookup finds for k are those of
+   notify_spec over the notifier lists registered at k and at its proper prefixes (longest first, the global list last) *)
+Theorem C17T_notify_walks_the_prefixes : forall r k p e ko old new, look_t r k true = Some p ->
+  notify r p e ko old new = notify_spec (fun q => c_nots (obs_t r q)) k e ko old new.
+Proof. exact notify_obs. Qed.
+Print Assumptions C17T_notify_walks_the_prefixes.
+
+(* C17 FOR THE TRIE, ALL HISTORIES of put / get / rm / count / notify_add / notify_del / notify_del_2 / foreach
+   (keys: non-empty C strings; notify_del names a key a notifier is registered on, or NULL - the documented
+   precondition): no error state; results = dictionary / subscription specification (incl. -EINVAL, -EEXIST, -ENOENT);
+   every put / rm makes EXACTLY the notifier calls notify_spec demands of the current subscriptions, in order, with
+   the right key, old and new value - INSERTED, REPLACED, DELETED, and QB_MAP_NOTIFY_FREE once per FREE subscription
+   for every value that leaves the map by replacement or removal; traversals as in C17T_foreach_all_histories.
+   (full_ok / valid_hist: MapTrieNotify4.v.)  qb_map_destroy: next theorem; explicit iterators: PropertiesTrie_C18.v. *)
+Theorem C17T_all_histories : forall fx hs, f_rm fx = true -> valid_hist [] [] hs ->
+  exists outs t', run fx trie_init (map iop_op hs) = (outs, Ok t') /\ full_ok [] [] hs outs.
+Proof. exact trie_c17_all_histories. Qed.
+Print Assumptions C17T_all_histories.
+
+(* ... and qb_map_destroy after any such history: no error state (the loop of trie_destroy never runs out of fuel,
+   never follows a stale pointer), and for every entry still present - each exactly once, in ascending (signed char)
+   key order - exactly the DELETED calls of the matching subscriptions and one QB_MAP_NOTIFY_FREE call per FREE
+   subscription: every value that leaves the map at destroy is released exactly once *)
+Theorem C17T_destroy_all_histories : forall fx hs, f_rm fx = true -> valid_hist [] [] hs ->
+  exists outs t' L, run fx trie_init (map iop_op hs ++ [ODestroy]) =
+                    (outs ++ [(RUnit, destroy_events (snd (spec_final [] [] hs)) L)], Ok t') /\
+                    full_ok [] [] hs outs /\ enum (fst (spec_final [] [] hs)) L.
+Proof. exact trie_c17_destroy. Qed.
+Print Assumptions C17T_destroy_all_histories.
+
+(* non-vacuity and illustration: a global recursive notifier (fn 0, user data 7), a FREE notifier (fn 1), a
+   recursive prefix notifier on "a" (fn 2): put ab 1; put ab 2 (replace); rm ab; count *)
+Definition ex_hist : list iop :=
+  [IH (HNotifyAdd None 0 15 7); IH (HNotifyAdd None 1 16 0); IH (HNotifyAdd (Some [97]) 2 15 3);
+   IH (HDict (DPut [97; 98] 1)); IH (HDict (DPut [97; 98] 2)); IH (HDict (DRm [97; 98])); IH (HDict DCount); IForeach 0].
+Example C17T_all_histories_example :
+  valid_hist [] [] ex_hist /\
+  map snd (fst (run FX_ALL trie_init (map iop_op ex_hist))) =
+  [[]; []; [];
+   [ECb 4 (Some [97; 98]) None (Some 1) 2 3; ECb 4 (Some [97; 98]) None (Some 1) 0 7];
+   [ECb 2 (Some [97; 98]) (Some 1) (Some 2) 2 3; ECb 2 (Some [97; 98]) (Some 1) (Some 2) 0 7;
+    ECb 16 (Some [97; 98]) (Some 1) (Some 2) 1 0];
+   [ECb 1 (Some [97; 98]) (Some 2) None 2 3; ECb 1 (Some [97; 98]) (Some 2) None 0 7;
+    ECb 16 (Some [97; 98]) (Some 2) None 1 0];
+   []; []].
+Proof.
+  split; [|vm_compute; reflexivity].
+  simpl. unfold kvalid, okvalid, kvalid. repeat split; try discriminate; repeat constructor; discriminate.
+Qed.
 
 (* klt is the order of the signed char values of the bytes (a proper prefix first): what "ascending" means for the
    trie (the difference to strcmp order for bytes >= 0x80 is the known finding C17-trie-signed-byte-order) *)
